@@ -450,7 +450,13 @@ _c("C18",
    "INSTANCES shared between two declarations of a class (leaf kind x ordered pairs of positions: the field itself, items of "
    "Array/Deque/Tuple/Set, Map key/value) are run through histories of operations on ONE realised class (valid; a invalid; c invalid; "
    "a invalid; both) under construction / deserialization x fail-fast / collect-all, each rejection judged by the clauses against "
-   "one-field-at-a-time oracles on a class realised afresh.",
+   "one-field-at-a-time oracles on a class realised afresh. SWITCH: the cells that set_fail_fast writes and failing_fast reads are "
+   "regenerated from the source (Gen/SwitchSites.v: one cell per process or one per thread; anything else Unrecognised); a switch "
+   "kept in one process-wide cell answers, under EVERY interleaving of calls by any threads, with the value last set by any thread "
+   "(C18_switch_process_wide, induction over histories; C18_switch_today re-checks today's cells; a per-thread cell is refuted by "
+   "witness); histories of calls made by real threads are compared with the generated cells and with the documented single switch "
+   "inside Coq, and every operation of every case is also run with the switch set in one thread and the validation and helper "
+   "call in another (both directions): the outcome must be that of the one-thread run.",
    "Trusted: Coq kernel + vm_compute; Render.v/Parse.v/Collect.v/Guard.v semantics hand-written (Guard.v uses the operators of "
    "Base/PyOps.v; float() of ints beyond 2^53 that do not overflow, Decimal arithmetic and opaque objects are Unmodelled and skipped); "
    "template extractor harness/genmods/templates.py (fails closed to Other) and chain translator harness/genmods/guard_progs.py "
